@@ -54,6 +54,7 @@ FIXED = [
     ("C11", "d7809fd", "host None crossed the native boundary un-normalised at _new_object/_invoke_getter/_to_primitive"),
     ("C15", "36ec98f", "`new parseInt()` reported a message containing a host object address"),
     ("C06", "382816e", "`o.x += 2` assigned 2: member targets ignored the compound operator"),
+    ("C04", "5541b57", "`a.reduce(function(acc,x){a.pop();return acc+x})` (and reduceRight) let a raw IndexError escape: the loop bound was computed before the callbacks ran"),
 ]
 
 
